@@ -246,7 +246,7 @@ func (r *Runner) runMoqTo(cwd string, args []string, plan *simos.Rule, tmp strin
 				res.Exit = -1
 			}
 		}
-	case <-time.After(120 * time.Second):
+	case <-time.After(15 * time.Minute):
 		cmd.Process.Kill()
 		<-done
 		res.TimedOut = true
